@@ -26,7 +26,7 @@ Definition show_chan (c : chan) : list Z :=
   | ChError p => 0 :: zq p
   | ChPauli1 a b c => 1 :: zq a ++ zq b ++ zq c
   | ChPauli2 l => 2 :: flat_map zq l
-  | ChCorrelated => [3]
+  | ChCorrelated ps => 3 :: flat_map zq ps
   end.
 Fixpoint show_ops_fuel (fuel : nat) {struct fuel} : list nat -> list (op nat) -> list (nat * list Z) * list nat :=
   fix go (ex : list nat) (ops : list (op nat)) {struct ops} : list (nat * list Z) * list nat :=
@@ -48,6 +48,7 @@ Fixpoint show_ops_fuel (fuel : nat) {struct fuel} : list nat -> list (op nat) ->
         | OChan c => ([(10%nat, show_chan c)], ex)
         | OBumpErr n => ([(11%nat, [n])], ex)
         | OCorrProb p => ([(12%nat, zq p)], ex)
+        | OFinalize => ([(14%nat, [])], ex)
         | OIfLane q body =>
             match fuel with
             | O => ([(99%nat, [])], ex)
